@@ -2,11 +2,20 @@
 
 L4 = ["layer4/verif_common_test.go"]
 INTEG = ["integration/verif_common_test.go"]
+PROXY = ["modules/l4proxy/verif_common_test.go"]
 
 MATCH = dict(name="match", pkg="./integration/", test="TestVerifMatch", files=INTEG + ["integration/verif_chain_test.go", "integration/verif_match_test.go", "integration/verif_match2_test.go", "integration/verif_match3_test.go"],
              nq=60000, nt=600000)
 
 PROPS = {
+    "C10": dict(
+        lean_modules=["L4.Props.C10", "L4.Expect.C10"],
+        stages=[dict(name="lb", pkg="./modules/l4proxy/", test="TestVerifLB", files=PROXY + ["modules/l4proxy/verif_lb_test.go"], nq=4000, nt=100000)],
+        level_text='Kernel-checked for every pool (any size, any peer state) and every outcome of the random source: each of first, random, least_conn, round_robin (every counter value, also across the uint32 wrap), ip_hash and random_choose returns an upstream that is in the pool and available, and returns none exactly when none is available; first picks the earliest. The models transcribe the Go loops with the random source as an explicit oracle and are tied to the code by a differential on pools built in-package (deterministic policies: exact; randomised: observed outcomes over 400 draws ⊆ model-possible outcomes, enumerated over all oracles). Cycle, minimality, determinism and consistency-under-removal are judged on the implementation.',
+        level_note="Trusted: Lean kernel, harness + driver, math/rand (any value possible), hash/fnv (re-implemented in Lean, compared by the differential). Partial: round-robin 'each available upstream once per cycle', ip_hash consistency when other upstreams leave and least_conn minimality are oracle-checked on the implementation, not yet theorems.",
+        rule='pools of 0-8 upstreams (0-4 for randomised policies) with 1-2 peers, random health / failure / connection counters and limits, client IPs v4/v6 incl. pairs whose FNV-1a hash is 0, round-robin counters incl. 2^32-2 / 2^32-1, 1-17 consecutive selections; non-trivial = pool with at least one upstream; distinct = distinct outputs',
+        assumptions=['400 draws per randomised case observe a subset of the possible outcomes'],
+    ),
     "C18": dict(
         lean_modules=["L4.Props.C18", "L4.Expect.C18"],
         stages=[dict(name="codec", pkg="./integration/", test="TestVerifCodec", files=INTEG + ["integration/verif_codec_test.go"], nq=30000, nt=600000)],
